@@ -378,6 +378,17 @@ class TxRunner:
                 v = show_val(val)
             d = "-" if expire_at is None else str(round((expire_at - BASE) * 8))
             items.append((k, f"{k}:{v}:{d}"))
+        # The model takes ONE serializable lock, at the first write, with that moment's lease.  While the block is open the
+        # copies later-touched backends hold (taken later, so with later deadlines) are shown as that one lock: once the
+        # earliest lease has run out (a body that outlasts the transaction timeout) the model's lock is gone, and the later
+        # copies are not a second lock.  After the block has ended every live copy is shown again: a lock key that survives
+        # the block must be seen (`no_lock_key_survives`).
+        memo = self.__dict__.setdefault("_glob_first", {})
+        if not self.txs or glob_lock is None:       # block ended, or no copy anywhere (explicit commit / rollback released them)
+            memo.pop(id(backends), None)
+        else:                                       # some copy is in a store right now
+            first = memo.setdefault(id(backends), glob_lock)
+            glob_lock = first if first > CLOCK.t else None
         if glob_lock is not None:
             items.append((1, f"1:L:{round((glob_lock - BASE) * 8)}"))
         return ",".join(s for _, s in sorted(items))
